@@ -149,10 +149,29 @@ def boList (f : Nat → Nat) : Nat → List Nat
   | 0 => []
   | n + 1 => f n :: boList f n
 
+/-- the timer never rounds down: the rounded delay (ms) covers the configured one (µs) -/
+theorem le_ceilMs (us : Nat) : us ≤ ceilMs us * 1000 := by
+  unfold ceilMs; omega
+
+/-- … and it rounds up to the *first* millisecond boundary: less than one millisecond is added -/
+theorem ceilMs_lt (us : Nat) : ceilMs us * 1000 < us + 1000 := by
+  unfold ceilMs; omega
+
+theorem ceilMs_zero : ceilMs 0 = 0 := by decide
+
+/-- a timer armed at `t` (ms) for `b` µs fires at the first millisecond boundary at or after `t·1000 + b` µs -/
+theorem ceil_window (t u b : Nat) (hu : u = t + ceilMs b) :
+    t * 1000 + b ≤ u * 1000 ∧ u * 1000 < t * 1000 + b + 1000 ∧ (0 < b → t < u) := by
+  subst hu; unfold ceilMs; omega
+
+/-- whole milliseconds are kept -/
+theorem ceilMs_whole (ms : Nat) : ceilMs (ms * 1000) = ms := by
+  unfold ceilMs; omega
+
 /-- Well-formed attempt history (newest first): attempts are numbered 0,1,2,…; an inner call is
 observed no earlier than it is ready; every attempt that has a successor failed with an error the
-predicate accepts, was observed at some instant `t`, and its successor started no earlier than
-`t + backoff(idx)`; attempt number `i` has the outcome and the latency of step `i` of the request's
+predicate accepts, was observed at some instant `t` (ms), and its successor started no earlier than
+`t + ⌈backoff(idx)/1000⌉` ms (the back-off is in µs, the timer rounds it up); attempt number `i` has the outcome and the latency of step `i` of the request's
 script (`ok` at once when the script is exhausted, as the harness's inner service does). -/
 def Hist (cfg : Cfg) (script : List Step) : List Att → Prop
   | [] => True
@@ -160,7 +179,7 @@ def Hist (cfg : Cfg) (script : List Step) : List Att → Prop
       a.idx = tl.length ∧ a.out = (script.getD a.idx { lat := 0, out := .ok }).out ∧
       a.due = a.start + (script.getD a.idx { lat := 0, out := .ok }).lat ∧
       (∀ t, a.seen = some t → a.due ≤ t) ∧
-      (∀ p, tl.head? = some p → Retryable cfg p ∧ ∃ t, p.seen = some t ∧ t + cfg.backoff p.idx ≤ a.start) ∧
+      (∀ p, tl.head? = some p → Retryable cfg p ∧ ∃ t, p.seen = some t ∧ t + ceilMs (cfg.backoff p.idx) ≤ a.start) ∧
       Hist cfg script tl
 
 /-- why a finished request stopped at attempt `a` -/
@@ -176,7 +195,7 @@ def PhaseInv (cfg : Cfg) (cl : Caller) : Prop :=
       ∃ a tl, cl.atts = a :: tl ∧ a.k = k ∧ a.out = o ∧ a.due = due ∧ a.seen = none ∧
         cl.sleeps.length = tl.length
   | .sleeping u =>
-      ∃ a tl t, cl.atts = a :: tl ∧ a.seen = some t ∧ u = t + cfg.backoff a.idx ∧ Retryable cfg a ∧
+      ∃ a tl t, cl.atts = a :: tl ∧ a.seen = some t ∧ u = t + ceilMs (cfg.backoff a.idx) ∧ Retryable cfg a ∧
         cl.sleeps.length = tl.length + 1 ∧ tl.length + 2 ≤ cl.maxA
   | .done =>
       ∃ a tl t, cl.atts = a :: tl ∧ a.seen = some t ∧ cl.result = some (resOf a.k a.out) ∧
@@ -877,7 +896,7 @@ theorem hist_member {cfg : Cfg} {sc : List Step} : ∀ (pre : List Att) {l : Lis
 
 theorem hist_adjacent {cfg : Cfg} {sc : List Step} : ∀ (pre : List Att) {l : List Att} {p q : Att} {rest : List Att},
     Hist cfg sc l → l = pre ++ p :: q :: rest →
-    Retryable cfg q ∧ p.idx = q.idx + 1 ∧ ∃ t, q.seen = some t ∧ q.due ≤ t ∧ t + cfg.backoff q.idx ≤ p.start := by
+    Retryable cfg q ∧ p.idx = q.idx + 1 ∧ ∃ t, q.seen = some t ∧ q.due ≤ t ∧ t + ceilMs (cfg.backoff q.idx) ≤ p.start := by
   intro pre
   induction pre with
   | nil =>
